@@ -1,6 +1,6 @@
 SPECIFICATION Spec
 CONSTANTS
-  Sessions <- S4
+  Sessions <- P4
   Graphs <- SimGraphs4T
   Depths <- D14
   Skips <- SimSkips4
